@@ -23,21 +23,24 @@ import (
 )
 
 type Summary struct {
-	Mode        string         `json:"mode"`
-	Seed        int64          `json:"seed"`
-	Requests    int            `json:"requests"`
-	Scripts     int            `json:"scripts"`
-	Distinct    int            `json:"distinct_nontrivial"`
-	ByCommand   map[string]int `json:"requests_by_command"`
-	ReplyKinds  map[string]int `json:"reply_kinds"`
-	Handled     int            `json:"oracle_handled"`
-	Unhandled   int            `json:"oracle_unhandled"`
-	StateChecks int            `json:"state_comparisons"`
-	Sweep       int            `json:"sweep_requests"`
-	Failures    []Failure      `json:"failures"`
-	Samples     []string       `json:"samples"`
-	Known       []string       `json:"known_finding_lines"`
-	WallS       float64        `json:"wall_s"`
+	Mode             string         `json:"mode"`
+	Seed             int64          `json:"seed"`
+	Requests         int            `json:"requests"`
+	Scripts          int            `json:"scripts"`
+	Distinct         int            `json:"distinct_nontrivial"`
+	ByCommand        map[string]int `json:"requests_by_command"`
+	ReplyKinds       map[string]int `json:"reply_kinds"`
+	Handled          int            `json:"oracle_handled"`
+	Unhandled        int            `json:"oracle_unhandled"`
+	StateChecks      int            `json:"state_comparisons"`
+	Sweep            int            `json:"sweep_requests"`
+	ErrorPathRepeats int            `json:"error_path_requests_repeated"`
+	Blocks           int            `json:"multi_blocks"`
+	BlocksFailed     int            `json:"multi_blocks_with_a_failing_command"`
+	Failures         []Failure      `json:"failures"`
+	Samples          []string       `json:"samples"`
+	Known            []string       `json:"known_finding_lines"`
+	WallS            float64        `json:"wall_s"`
 }
 
 type Failure struct {
@@ -209,6 +212,8 @@ func runC14(seed int64, n int, grams []*hx.CmdGrammar) {
 	}
 	var history [][]string
 	sent := 0
+	var errReqs [][]string
+	errSeen := map[string]bool{}
 	// a second, idle client that must keep being served
 	other := newConn()
 	for i := 0; i < n && len(sum.Failures) == 0; i++ {
@@ -228,7 +233,16 @@ func runC14(seed int64, n int, grams []*hx.CmdGrammar) {
 			continue // transaction blocks are exercised separately below
 		}
 		sent++
-		_, okx := exchange(c, args, i, &history)
+		rv, okx := exchange(c, args, i, &history)
+		if okx && rv.Kind == '-' && len(errReqs) < 80 {
+			msg := string(rv.Str)
+			// errors raised while the command ran (not by the argument parser)
+			if !strings.Contains(msg, "syntax") && !strings.Contains(msg, "wrong number") && !strings.Contains(msg, "unknown command") &&
+				!strings.Contains(msg, "not an integer") && !strings.Contains(msg, "not a float") && !errSeen[low+"|"+msg] {
+				errSeen[low+"|"+msg] = true
+				errReqs = append(errReqs, args)
+			}
+		}
 		if !okx {
 			// is the server still alive?
 			if !srv.Alive() {
@@ -284,6 +298,48 @@ func runC14(seed int64, n int, grams []*hx.CmdGrammar) {
 			if err != nil || p.Kind != '$' || string(p.Str) != "end-of-pipeline" {
 				fail("c14-out-of-step", "after a pipeline of "+strconv.Itoa(m)+" requests the closing PING was answered with "+p.Verbose(), batch)
 			}
+		}
+	}
+	// error paths must not use anything up: requests that failed while running (those met above
+	// and scripted ones: aggregates and increments that produce a non-number) are repeated more
+	// often than the server has pooled connections; reads and writes must keep being served
+	if len(sum.Failures) == 0 {
+		scripted := [][]string{
+			{"DEL", "xa", "xb", "xd"}, {"ZADD", "xa", "inf", "m", "1", "n"}, {"ZADD", "xb", "-inf", "m", "2", "n"},
+		}
+		for _, a := range scripted {
+			exchange(c, a, 900000, &history)
+		}
+		provoke := [][]string{
+			{"ZUNION", "2", "xa", "xb"}, {"ZINTER", "2", "xa", "xb"}, {"ZUNIONSTORE", "xd", "2", "xa", "xb"}, {"ZINTERSTORE", "xd", "2", "xa", "xb"},
+			{"ZUNION", "2", "xa", "xb", "WITHSCORES"}, {"ZINCRBY", "xa", "-inf", "m"}, {"INCRBYFLOAT", "xa", "1"}, {"HINCRBYFLOAT", "xa", "f", "1"},
+			{"RPOPLPUSH", "xa", "xb"}, {"SMOVE", "xa", "xb", "m"}, {"LINSERT", "xa", "before", "m", "x"},
+		}
+		provoke = append(provoke, errReqs...)
+		probe := newConn()
+		for pi, a := range provoke {
+			if len(sum.Failures) > 0 || probe == nil {
+				break
+			}
+			for rep := 0; rep < 24 && len(sum.Failures) == 0; rep++ {
+				if _, okx := exchange(c, a, 910000+pi*100+rep, &history); !okx {
+					break
+				}
+			}
+			sum.ErrorPathRepeats++
+			for _, pr := range [][]string{{"SET", "xprobe", "1"}, {"GET", "xprobe"}, {"ZRANGE", "xa", "0", "-1"}, {"SCARD", "xprobe2"}} {
+				if err := probe.Send(toBytes(pr)); err != nil {
+					fail("c14-other-client", "cannot send on a second connection: "+err.Error(), history)
+					break
+				}
+				if _, err := probe.Recv(4 * time.Second); err != nil {
+					fail("c14-hang", fmt.Sprintf("after %s had been sent 24 times (each answered), %s on another connection got no reply within 4 s: %v", q(a), q(pr), err), append(history, a, pr))
+					break
+				}
+			}
+		}
+		if probe != nil {
+			probe.Close()
 		}
 	}
 	// transaction blocks with hostile content: one reply per request inside the
@@ -771,17 +827,205 @@ func runC13(seed int64, n int, grams []*hx.CmdGrammar) {
 			break
 		}
 	}
+	// (3) MULTI blocks of real commands: a block in which a queued command fails when it runs
+	// changes nothing; a block that runs through gives the replies and the content of the same
+	// commands issued one by one (the twin gets them through the oracle)
+	if len(sum.Failures) == 0 {
+		c13Blocks(g, grams, c, twin, srvPath, n/40, &hist)
+	}
+}
+
+func c13Blocks(g *hx.WireGen, grams []*hx.CmdGrammar, c *hx.Client, twin *redka.DB, srvPath string, rounds int, hist *[][]string) {
+	skip := map[string]bool{"multi": true, "exec": true, "discard": true, "spop": true, "srandmember": true, "randomkey": true,
+		"scan": true, "sscan": true, "hscan": true, "zscan": true, "dbsize": true, "flushdb": true, "flushall": true, "keys": true,
+		"select": true, "command": true, "config": true, "echo": true, "ping": true, "zrevrangebyscore": true, "zrange": true}
+	do := func(args []string) (hx.RV, bool) {
+		*hist = append(*hist, args)
+		if len(*hist) > 60 {
+			*hist = (*hist)[len(*hist)-60:]
+		}
+		if err := c.Send(toBytes(args)); err != nil {
+			fail("c13-send", err.Error(), *hist)
+			return hx.RV{}, false
+		}
+		v, err := c.Recv(5 * time.Second)
+		if err != nil {
+			fail("c13-no-reply", "no well-formed reply to "+q(args)+": "+err.Error(), *hist)
+			return hx.RV{}, false
+		}
+		return v, true
+	}
+	// runBlock sends MULTI, the commands, EXEC and checks the outcome; false = stop
+	runBlock := func(cmds [][]string) bool {
+		before, err := hx.ContentOfFile(srvPath)
+		if err != nil {
+			fail("harness", err.Error(), *hist)
+			return false
+		}
+		if v, okv := do([]string{"MULTI"}); !okv || v.Kind != '+' {
+			if okv {
+				fail("c13-reply", "MULTI answered "+v.Verbose(), *hist)
+			}
+			return false
+		}
+		var queued [][]string
+		for _, args := range cmds {
+			v, okv := do(args)
+			if !okv {
+				return false
+			}
+			if v.Kind == '+' && string(v.Str) == "QUEUED" {
+				queued = append(queued, args)
+			} else if v.Kind != '-' {
+				fail("c13-reply", fmt.Sprintf("inside MULTI %s answered %s (neither QUEUED nor an error)", q(args), v.Verbose()), *hist)
+				return false
+			}
+		}
+		ex, okv := do([]string{"EXEC"})
+		if !okv {
+			return false
+		}
+		sum.Blocks++
+		if ex.Kind != '*' || len(ex.Arr) != len(queued) {
+			fail("c13-reply", fmt.Sprintf("EXEC of %d queued commands answered %s", len(queued), ex.Verbose()), *hist)
+			return false
+		}
+		failedAt := -1
+		for i, e := range ex.Arr {
+			if e.Kind == '-' {
+				failedAt = i
+				break
+			}
+		}
+		after, err := hx.ContentOfFile(srvPath)
+		if err != nil {
+			fail("harness", err.Error(), *hist)
+			return false
+		}
+		if failedAt >= 0 {
+			sum.BlocksFailed++
+			if same, why := hx.SameContent(before, after); !same {
+				fail("c13-state", fmt.Sprintf("a MULTI block whose command %s failed when it ran (%s) changed the database (%s)\n before: %s\n after : %s",
+					q(queued[failedAt]), ex.Arr[failedAt].Verbose(), why, before.Text, after.Text), *hist)
+				return false
+			}
+			return true
+		}
+		for i, args := range queued {
+			want, handled := hx.WireOracle(twin, toBytes(args))
+			low := strings.ToLower(args[0])
+			if !handled {
+				hx.ApplyThroughCommandLayer(twin, toBytes(args))
+				continue
+			}
+			gc, wc := ex.Arr[i].Canon(), want.Canon()
+			if hx.WireUnordered(low) || hx.WirePaired(low) {
+				gc, wc = sortedCanon(ex.Arr[i], hx.WirePaired(low)), sortedCanon(want, hx.WirePaired(low))
+			}
+			if gc != wc {
+				if kf := knownWireFinding(args); kf != "" {
+					knownHits[kf]++
+					continue
+				}
+				fail("c13-reply", fmt.Sprintf("inside a MULTI block %s answered %s; the documented API call, Redis-typed, gives %s", q(args), ex.Arr[i].Verbose(), want.Verbose()), *hist)
+				return false
+			}
+		}
+		bb, errB := hx.ContentOfDB(twin)
+		if errB != nil {
+			fail("harness", errB.Error(), *hist)
+			return false
+		}
+		if same, why := hx.SameContent(after, bb); !same {
+			fail("c13-state", fmt.Sprintf("after a MULTI block that ran through, the server's database differs from the twin given the same commands one by one (%s)\n server: %s\n twin  : %s", why, after.Text, bb.Text), *hist)
+			return false
+		}
+		return true
+	}
+	// plain (outside MULTI) request that keeps the twin in step
+	plain := func(args []string) bool {
+		if _, okv := do(args); !okv {
+			return false
+		}
+		if _, handled := hx.WireOracle(twin, toBytes(args)); !handled {
+			hx.ApplyThroughCommandLayer(twin, toBytes(args))
+		}
+		return true
+	}
+	// (a) every command of the five data types inside a block between two marker writes: on keys
+	// of its own type, on keys of another type, and with its first key of its own type and the
+	// others of another type (a move whose destination is refused after the source was read)
+	saved := g.Keys
+	wrongOf := map[string]string{"string": "list", "list": "string", "set": "hash", "hash": "zset", "zset": "set"}
+	for _, cg := range grams {
+		if len(sum.Failures) > 0 {
+			break
+		}
+		fam := cg.Parser
+		if k := strings.Index(fam, "."); k >= 0 {
+			fam = fam[:k]
+		}
+		if _, okf := sweepSetup[fam]; !okf || skip[cg.Name] {
+			continue
+		}
+		own, wrong := sweepKeys[fam][0], sweepKeys[wrongOf[fam]][0]
+		for _, seq := range [][]string{{own, sweepKeys[fam][1]}, {wrong}, {own, wrong}, {own, "kn"}} {
+			okAll := true
+			for _, f := range []string{fam, wrongOf[fam]} {
+				for _, setup := range sweepSetup[f] {
+					if !plain(setup) {
+						okAll = false
+					}
+				}
+			}
+			if !okAll {
+				g.Keys = saved
+				return
+			}
+			g.ResetKeySeq(seq...)
+			var args []string
+			if cg.Combs != nil {
+				args = g.VectorOpts(cg, nil)
+			} else {
+				args = g.Vector(cg, 0)
+			}
+			g.ResetKeySeq()
+			if !runBlock([][]string{{"SET", "marker1", "1"}, args, {"SET", "marker2", "2"}}) {
+				g.Keys = saved
+				return
+			}
+		}
+	}
+	g.Keys = saved
+	// (b) random blocks
+	for round := 0; round < rounds && len(sum.Failures) == 0; round++ {
+		var cmds [][]string
+		m := 1 + g.R.Intn(4)
+		for len(cmds) < m {
+			cg := grams[g.R.Intn(len(grams))]
+			if skip[cg.Name] {
+				continue
+			}
+			cmds = append(cmds, g.Vector(cg, 0.05))
+		}
+		if !runBlock(cmds) {
+			return
+		}
+	}
 }
 
 // the typed keys of the sweep and the commands that create them (each with a time-to-live)
 var sweepSetup = map[string][][]string{
-	"string": {{"DEL", "ks", "kn"}, {"SET", "ks", "10", "EX", "5000"}},
-	"hash":   {{"DEL", "kh", "kn"}, {"HSET", "kh", "f1", "1", "f2", "b", "f3", ""}, {"EXPIRE", "kh", "5000"}},
-	"list":   {{"DEL", "kl", "kn"}, {"RPUSH", "kl", "a", "b", "c", "a"}, {"EXPIRE", "kl", "5000"}},
-	"set":    {{"DEL", "ke", "kn"}, {"SADD", "ke", "a", "b", "c"}, {"EXPIRE", "ke", "5000"}},
-	"zset":   {{"DEL", "kz", "kn"}, {"ZADD", "kz", "1", "a", "2", "b", "3", "c"}, {"EXPIRE", "kz", "5000"}},
+	"string": {{"DEL", "ks", "ks2", "kn"}, {"SET", "ks", "10", "EX", "5000"}, {"SET", "ks2", "abc"}},
+	"hash":   {{"DEL", "kh", "kh2", "kn"}, {"HSET", "kh", "f1", "1", "f2", "b", "f3", ""}, {"EXPIRE", "kh", "5000"}, {"HSET", "kh2", "f1", "x"}},
+	"list":   {{"DEL", "kl", "kl2", "kn"}, {"RPUSH", "kl", "a", "", "c", "a"}, {"EXPIRE", "kl", "5000"}, {"RPUSH", "kl2", "z", ""}},
+	"set":    {{"DEL", "ke", "ke2", "kn"}, {"SADD", "ke", "a", "b", "c"}, {"EXPIRE", "ke", "5000"}, {"SADD", "ke2", "b", "c", "d"}},
+	"zset":   {{"DEL", "kz", "kz2", "kn"}, {"ZADD", "kz", "1", "a", "2", "b", "3", "c"}, {"EXPIRE", "kz", "5000"}, {"ZADD", "kz2", "10", "a", "0.5", "b", "7", "d"}},
 }
-var sweepKey = map[string]string{"string": "ks", "hash": "kh", "list": "kl", "set": "ke", "zset": "kz"}
+
+// the keys a swept command draws from: the typed key with a time-to-live and a second key of the
+// same type with overlapping content (so that multi-key commands have something to aggregate)
+var sweepKeys = map[string][]string{"string": {"ks", "ks2"}, "hash": {"kh", "kh2"}, "list": {"kl", "kl2"}, "set": {"ke", "ke2"}, "zset": {"kz", "kz2"}}
 
 func c13Sweep(g *hx.WireGen, grams []*hx.CmdGrammar, one func(i int, args []string) bool) {
 	saved := g.Keys
@@ -822,13 +1066,24 @@ func c13Sweep(g *hx.WireGen, grams []*hx.CmdGrammar, one func(i int, args []stri
 		}
 		for _, f := range fams {
 			for _, which := range variants {
-				for _, target := range []string{sweepKey[f], sweepKey[f], sweepKey[f], "kn"} {
+				reps := 4
+				if len(opts) == 0 {
+					reps = 16 // only the positional arguments vary: draw them more often
+				}
+				for rep := 0; rep < reps; rep++ {
 					for _, setup := range sweepSetup[f] {
 						if !run(setup) {
 							return
 						}
 					}
-					g.Keys = []string{target}
+					switch rep {
+					case 0:
+						g.Keys = sweepKeys[f][:1]
+					case reps - 1:
+						g.Keys = []string{"kn"}
+					default:
+						g.Keys = sweepKeys[f]
+					}
 					if !run(g.VectorOpts(cg, which)) {
 						return
 					}
